@@ -35,7 +35,7 @@ _ctr = itertools.count(1)
 
 def parts(tier):
     big = tier == "thorough"
-    return [Part("decl", "hyp", strategy=decl.histories(fault_rate=35), n=100000 if big else 8000, chunk=800),
+    return [Part("decl", "hyp", strategy=decl.histories(fault_rate=35, max_steps=26 if big else 14), n=200000 if big else 8000, chunk=800),
             Part("currency", "hyp", strategy=gen_currency(), n=40000 if big else 4000),
             Part("converter", "hyp", strategy=gen_converter(), n=100000 if big else 8000)]
 
